@@ -181,7 +181,10 @@ def run_case(case, rec):
     for i in idx:
         if names[i] == "data_set(radius)" and not case["data_set"]:
             continue
-        best, fd_best = np.inf, None
+        if not np.isfinite(g[i]):
+            rec.violated("grad_fd", param=names[i], value=float(x0[i]), grad=float(g[i]), what="gradient not finite although the loss is", loss=L0, **tag)
+            continue
+        best, fd_best = np.inf, 0.0
         for hrel in (1e-4, 1e-5, 1e-6, 1e-3):
             h = hrel * max(1.0, abs(x0[i]))
             e = np.zeros_like(x0)
@@ -195,7 +198,7 @@ def run_case(case, rec):
         rec.check("grad_fd", ok, param=names[i], value=float(x0[i]), grad=float(g[i]), finite_diff=float(fd_best), abs_err=float(best),
                   rel_err=float(best / max(abs(fd_best), 1e-300)), loss=L0, **tag)
     # forward mode vs reverse mode along random directions
-    if case["jvp"]:
+    if case["jvp"] and np.all(np.isfinite(g)):
         try:
             for _ in range(2):
                 dvec = rng.normal(0, 1, len(x0)) * np.maximum(1e-3, np.abs(x0))
